@@ -45,7 +45,7 @@ def _returns_tree(stmts):
     first = stmts[0]
     if isinstance(first, ast.Return) and first.value is not None and len(stmts) == 1:
         return first.value
-    if isinstance(first, ast.If) and not any(isinstance(x, ast.NamedExpr) for x in ast.walk(first.test)):
+    if isinstance(first, ast.If):
         a = _returns_tree(first.body)
         rest = first.orelse if first.orelse else stmts[1:]
         if first.orelse and len(stmts) > 1:
@@ -62,12 +62,19 @@ class _Helper:
         self.cls = cls_name
         self.qual = qual
         self.static = any(isinstance(d, ast.Name) and d.id == "staticmethod" for d in node.decorator_list)
+        self.classm = any(isinstance(d, ast.Name) and d.id == "classmethod" for d in node.decorator_list)
         body = list(node.body)
         if body and isinstance(body[0], ast.Expr) and isinstance(body[0].value, ast.Constant) and isinstance(body[0].value.value, str):
             body = body[1:]
-        tree_expr = _returns_tree(body)
-        if tree_expr is not None and not (len(body) == 1 and isinstance(body[0], ast.Return)):
-            body = [ast.copy_location(ast.Return(value=tree_expr), body[0])]
+        # the longest suffix of the body that is a decision tree of returns becomes one `return <conditional expression>`
+        for k in range(len(body)):
+            if any(isinstance(x, ast.Return) for st in body[:k] for x in ast.walk(st)):
+                break
+            tree_expr = _returns_tree(body[k:])
+            if tree_expr is not None:
+                if not (len(body) - k == 1 and isinstance(body[k], ast.Return)):
+                    body = body[:k] + [ast.copy_location(ast.Return(value=tree_expr), body[k])]
+                break
         self.body = body
         self.ret = None
         if body and isinstance(body[-1], ast.Return):
@@ -88,7 +95,7 @@ class _Helper:
         n = self.node
         if n.args.vararg or n.args.kwarg:
             return False
-        if any(isinstance(d, ast.Name) and d.id in ("property", "classmethod", "cache", "cached_property") or isinstance(d, ast.Attribute) for d in n.decorator_list):
+        if any(isinstance(d, ast.Name) and d.id in ("property", "cache", "cached_property") or isinstance(d, ast.Attribute) for d in n.decorator_list):
             return False
         own = {a.arg for a in (*n.args.posonlyargs, *n.args.args, *n.args.kwonlyargs)} | {x.id for x in ast.walk(n) if isinstance(x, ast.Name) and isinstance(x.ctx, ast.Store)}
         for x in ast.walk(n):
@@ -322,10 +329,12 @@ class Inliner:
                 h = self.helpers.get((cls_name, f.attr)) or self._inherited(cls_name, f.attr)
                 if h is not None:
                     return h, f.value
-            # ClassName.helper(...)  (static helpers)
+            # ClassName.helper(...)  (static / class helpers)
             h = self.helpers.get((f.value.id, f.attr))
             if h is not None and h.static:
                 return h, None
+            if h is not None and getattr(h, "classm", False):
+                return h, f.value  # cls := the class name
         return None, None
 
     def _inherited(self, cls_name, attr):
